@@ -1,5 +1,6 @@
 (* C17 — time-step compression keeps every step within bound for any step schedule. *)
-From Coq Require Import ZArith List Bool.
+From Coq Require Import ZArith List Bool Reals.
+From Flocq Require Import IEEE754.Binary.
 Import ListNotations.
 Require Import SZV.Base.FloatOps SZV.Model.Quant SZV.Model.QuantFloat SZV.Model.TimeStep SZV.Model.TimeStepFloat
                SZV.Proofs.TimeStep_proofs SZV.Proofs.TimeStepFloat_proofs.
@@ -75,6 +76,22 @@ Print Assumptions C17_float_temporal_recheck.
 Theorem C17_double_temporal_recheck : forall c h p x q r, dt_quant c h p x = Some (q, r) -> dt_ok c x r = true.
 Proof. exact dt_quant_ok. Qed.
 Print Assumptions C17_double_temporal_recheck.
+
+(* value-range protection: the value handed out (the reconstruction clamped to the step's own [min, max]; the history keeps the
+   unclamped one) is at least as close to every element of the step's data -- in particular to the original it stands for -- as the
+   reconstruction the step theorems bound *)
+Theorem C17_double_protected_output_closer : forall data x r,
+  Forall (fun y => Binary.is_finite 53 1024 (D y) = true) data -> In x data -> Binary.is_finite 53 1024 (D r) = true ->
+  forall r', In r' (d_out1 data [r]) ->
+  (Rabs (Binary.B2R 53 1024 (D x) - Binary.B2R 53 1024 (D r')) <= Rabs (Binary.B2R 53 1024 (D x) - Binary.B2R 53 1024 (D r)))%R.
+Proof. exact d_out1_closer. Qed.
+Print Assumptions C17_double_protected_output_closer.
+Theorem C17_float_protected_output_closer : forall data x r,
+  Forall (fun y => Binary.is_finite 24 128 (F y) = true) data -> In x data -> Binary.is_finite 24 128 (F r) = true ->
+  forall r', In r' (f_out1 data [r]) ->
+  (Rabs (Binary.B2R 24 128 (F x) - Binary.B2R 24 128 (F r')) <= Rabs (Binary.B2R 24 128 (F x) - Binary.B2R 24 128 (F r)))%R.
+Proof. exact f_out1_closer. Qed.
+Print Assumptions C17_float_protected_output_closer.
 
 (* before the repair (87968a2) the lock-step statement was false: a verbatim temporal step followed by a temporal step *)
 Theorem C17_old_verbatim_step_refuted :
